@@ -148,7 +148,7 @@ def check_named_range_name(ctx, name):
 
 def run_shard(ctx):
     M = make_machine(ctx, "C07", corpus.table_specs())
-    ctx.run_machine(M, ctx.budget(16 * 320, 16 * 2500), 25 if not ctx.thorough else 50, replay=replay_raise)
+    ctx.run_machine(M, ctx.budget(16 * 320, 16 * 1500), 25 if not ctx.thorough else 50, replay=replay_raise)
 
     names = st.one_of(
         st.text(alphabet=st.sampled_from(NAME_ALPHA), max_size=8),
